@@ -334,6 +334,24 @@ def subsequence_filter(prog, b, source_param, pred_ok):
     return False, 'neither a single guarded push, a single iterator filter nor a single retain (pushes=%d, filters=%d, retains=%d)' % (len(pushes), len(filters), len(retains))
 
 
+def edge_value(g, key):
+    """(term, n) when the switch edge (g, key) says `term == n` for an integer constant n: `term == n` on its true edge,
+    `term != n` on its false edge, or arm n of a `match term { n => .. }`; None otherwise."""
+    from . import opw
+    g0 = strip(g)
+    if isinstance(g0, tuple) and g0[0] == 'bin' and g0[1] in ('Eq', 'Ne'):
+        tv = opw.truth(key)
+        if tv in (True, False) and (g0[1] == 'Eq') == tv and isinstance(const_val(g0[3]), int) and not isinstance(const_val(g0[3]), bool):
+            return strip(g0[2]), const_val(g0[3])
+        return None
+    if isinstance(g0, tuple) and g0[0] in ('fld', 'var', 'param', 'cast', 'idx', 'deref') and isinstance(key, int) and not isinstance(key, bool):
+        t = g0
+        while isinstance(t, tuple) and t[0] == 'cast':
+            t = strip(t[1])
+        return t, key
+    return None
+
+
 def differs_guard(g, truth):
     """(a, b) when the edge taken with `truth` means a != b: `a != b` on its true edge or `a == b` on its false edge
     (operator form); None otherwise.  equals_guard is the converse."""
@@ -832,3 +850,54 @@ def resolve_case(b, t, assume, depth=8):
             return f(strip(y[1])[2 + int(y[2])], d - 1)
         return y
     return f(t, depth)
+
+
+def peval(prog, t, rounds=4):
+    """Partial evaluation of a value term: calls of crate-local functions and closures with a single return value are written
+    out (arguments and captures substituted), `array::from_fn(f)[k]` becomes f(k), `array.map(f)[k]` becomes f(array[k]),
+    constant indices into array aggregates and numbered fields of tuple aggregates are projected.  The result denotes the same
+    value; what cannot be evaluated is left as it is."""
+    def call_closure(cl, args):
+        cb, caps = closure_of_term(prog, cl)
+        if cb is None:
+            return None
+        rv = cb.return_values()
+        if len(rv) != 1:
+            return None
+        return subst_closure(cb, rv[0][0], list(caps), list(args))
+
+    def simp(x, d):
+        if not isinstance(x, tuple):
+            return x
+        x = (x[0],) + tuple(simp(y, d) if isinstance(y, tuple) else y for y in x[1:])
+        if x[0] == 'idx' and len(x) == 3:
+            base = strip(x[1])
+            k = const_val(x[2])
+            if isinstance(k, int) and not isinstance(k, bool) and isinstance(base, tuple):
+                if base[0] == 'agg' and base[1] in ('array', 'vec') and k < len(base) - 2:
+                    return base[2 + k]
+                if base[0] == 'call' and len(base) == 3 and mir.cname(base[1]) == 'array::from_fn' and d > 0:
+                    r = call_closure(base[2], [('const', 'usize', k, None)])
+                    if r is not None:
+                        return simp(r, d - 1)
+                if base[0] == 'call' and len(base) == 4 and mir.cname(base[1]) == 'array::map' and d > 0:
+                    r = call_closure(base[3], [('idx', base[2], x[2])])
+                    if r is not None:
+                        return simp(r, d - 1)
+        if x[0] == 'fld' and len(x) == 3 and str(x[2]).isdigit():
+            base = strip(x[1])
+            if isinstance(base, tuple) and base[0] == 'agg' and base[1] not in ('array', 'vec') and not str(base[1]).startswith('closure:') and int(x[2]) < len(base) - 2:
+                return base[2 + int(x[2])]
+        if x[0] == 'call' and x[1] in prog.bodies and d > 0:
+            cb = prog.bodies[x[1]]
+            rv = cb.return_values()
+            if len(rv) == 1:
+                if cb.kind == 'Closure':
+                    env = strip(x[2]) if len(x) > 2 else None
+                    args = strip(x[3]) if len(x) > 3 else None
+                    if isinstance(env, tuple) and env[0] == 'agg' and isinstance(args, tuple) and args[0] == 'agg':
+                        return simp(subst_closure(cb, rv[0][0], env[2:], args[2:]), d - 1)
+                else:
+                    return simp(subst_params(rv[0][0], x[2:]), d - 1)
+        return x
+    return simp(t, rounds)
